@@ -37,20 +37,35 @@ let fbf (x : bdd) (y : bdd) fa fb fo op : bdd outcome =
    model with no hypotheses: the size-limited engine and the dry run (Model/ApplyFast2.v, Proofs/ApplyFast2.v
    fused_binary_flip_op_with_limit_fast_eq / check_fused_binary_flip_op_fast_eq), the ternary engine
    (Model/Apply3Fast.v, Proofs/Apply3Fast.v fused_ternary_flip_op_faithful_fast_eq) and the nested apply
-   (Model/NestedFast.v, Proofs/NestedFast.v nested_apply_fn_fast_eq).  BDD_ENGINE=fast forces the twins, slow/stack the
-   reference definitions (engine cross-check of ./check). *)
+   (Model/NestedFast.v, Proofs/NestedFast.v nested_apply_fn_fast_eq).  BDD_ENGINE=fast forces the twins, slow the
+   reference definitions (engine cross-check of ./check).
+   BDD_ENGINE=stack selects, for the size-limited engine, the dry run and the ternary engine, the STEP-FAITHFUL
+   explicit-stack machines (Model/ApplyLimitStack.v, Model/DryStack.v, Model/Apply3Stack.v: one step = one iteration of
+   the Rust `while` loop; proved equal to the reference definitions for well-formed operands and total tables in
+   Proofs/ApplyLimitStack.v apply2_limit_stack_eq, Proofs/DryStack.v dry_run_stack_eq, Proofs/Apply3Stack.v apply3_stack_eq)
+   as long as no operand is above fast_threshold nodes; above it (association-list tables: quadratic) the fast twins
+   stay in charge.  The nested apply has no stack machine: `stack` = reference there. *)
 let is_big (x : bdd) = longer_than x fast_threshold
 let use_fast (operands : bdd list) : bool =
   match engine with
   | `Fast -> true
   | `Slow | `Stack -> false
   | `Auto -> List.exists is_big operands
+(* `Stack on small operands -> the stack machine; `Stack on big operands -> the fast twin; otherwise as use_fast *)
+let pick3 (operands : bdd list) ~(stack : unit -> 'a) ~(fast : unit -> 'a) ~(reference : unit -> 'a) : 'a =
+  match engine with
+  | `Stack -> if List.exists is_big operands then fast () else stack ()
+  | _ -> if use_fast operands then fast () else reference ()
 let limf lim (x : bdd) (y : bdd) fa fb fo op : bdd option outcome =
-  if use_fast [x; y] then fused_binary_flip_op_with_limit_fast lim x y fa fb fo op
-  else fused_binary_flip_op_with_limit lim x y fa fb fo op
+  pick3 [x; y]
+    ~stack:(fun () -> fused_binary_flip_op_with_limit_stack lim x y fa fb fo op)
+    ~fast:(fun () -> fused_binary_flip_op_with_limit_fast lim x y fa fb fo op)
+    ~reference:(fun () -> fused_binary_flip_op_with_limit lim x y fa fb fo op)
 let dryf lim (x : bdd) (y : bdd) fa fb fo op : (bool * n) option outcome =
-  if use_fast [x; y] then check_fused_binary_flip_op_fast lim x y fa fb fo op
-  else check_fused_binary_flip_op lim x y fa fb fo op
+  pick3 [x; y]
+    ~stack:(fun () -> check_fused_binary_flip_op_stack lim x y fa fb fo op)
+    ~fast:(fun () -> check_fused_binary_flip_op_fast lim x y fa fb fo op)
+    ~reference:(fun () -> check_fused_binary_flip_op lim x y fa fb fo op)
 
 (* restrict / var_restrict: the order-faithful single-pass algorithm (Model/Restrict.v) is the model that is
    reported; the compositional model (Ops.restrict, exists-of-select) is computed as well.  On a well-formed
@@ -83,8 +98,10 @@ let nf_both faithful fold (nv : n) (cs : pval list) : bdd outcome =
    model/extraction/driver bug and is a hard error; otherwise (malformed operand recorded from a defective
    implementation, inconsistent table) the theorem does not apply and the faithful engine's result goes to the judge. *)
 let tern3 (x : bdd) (y : bdd) (z : bdd) fa fb fc fo (op : op3) : bdd outcome =
-  let f = if use_fast [x; y; z] then fused_ternary_flip_op_faithful_fast x y z fa fb fc fo op
-          else fused_ternary_flip_op_faithful x y z fa fb fc fo op in
+  let f = pick3 [x; y; z]
+      ~stack:(fun () -> fused_ternary_flip_op_stack x y z fa fb fc fo op)
+      ~fast:(fun () -> fused_ternary_flip_op_faithful_fast x y z fa fb fc fo op)
+      ~reference:(fun () -> fused_ternary_flip_op_faithful x y z fa fb fc fo op) in
   (* the compositional cross-check runs five reference binary applies and the list-based wfb (quadratic): only
      when no operand is above the threshold *)
   if not (List.exists is_big [x; y; z]) then begin
